@@ -573,3 +573,112 @@ package nbhttp
 //@   at before:h#1 assert head: head.h == old(c.handlers[0].h)   // prop C10
 //@   at before:h#1 assert answer: arg_res == res && arg_err == err   // prop C10
 //@   at call:h#1 ghost { c.gInv = c.gInv + 1 }
+
+// ---- what the server-side processor stores for each parse event (C07): the request handed to the handler carries exactly
+// what the parser delivered - method, target, version, every header value in arrival order under the key delivered,
+// the declared length - nothing dropped, replaced or reordered.
+//@ func (*ServerProcessor).OnMethod
+//@   props C07
+//@   safety nil
+//@   requires p != nil && (parser != nil ==> parser.Engine != nil && parser.Engine.emptyRequest != nil)
+//@   ensures stored: p.request != nil && p.request.Method == method   // prop C07
+//@   ensures same: old(p.request) != nil ==> p.request == old(p.request) && p.request.Header == old(p.request.Header)   // prop C07
+//@   ensures fresh: old(p.request) == nil ==> p.request.Header != nil   // prop C07
+//@   assigns everything
+//@   note requestPool's New returns &http.Request{} and releaseRequest puts back *http.Request values only
+//@   at call:Get#1 assume pooled: istype(result, "*net/http.Request") && as(result, "*net/http.Request") != nil
+//@ func (*ServerProcessor).OnHeader
+//@   props C07
+//@   safety nil
+//@   requires p != nil && p.request != nil && p.request.Header != nil
+//@   ensures added: len(p.request.Header[key]) == old(len(p.request.Header[key])) + 1 && p.request.Header[key][old(len(p.request.Header[key]))] == value   // prop C07
+//@   ensures kept: forall j int :: 0 <= j && j < old(len(p.request.Header[key])) ==> p.request.Header[key][j] == old(p.request.Header[key][j])   // prop C07
+//@   ensures others: forall k string :: k != key ==> p.request.Header[k] == old(p.request.Header[k])   // prop C07
+//@   ensures same: p.request == old(p.request) && p.request.Header == old(p.request.Header)
+//@   assigns everything
+//@ func (*ServerProcessor).OnContentLength
+//@   props C07
+//@   safety nil
+//@   requires p != nil && p.request != nil
+//@   ensures stored: p.request.ContentLength == contentLength && p.request == old(p.request)   // prop C07
+//@   assigns p.request.ContentLength
+//@ func (*ServerProcessor).OnURL
+//@   props C07
+//@   safety nil
+//@   requires p != nil && p.request != nil
+//@   ensures target: p.request.RequestURI == old(rawurl) && p.request == old(p.request)   // prop C07
+//@   ensures parsed: result == nil ==> p.request.URL != nil   // prop C07
+//@   assigns everything
+//@ func (*ServerProcessor).OnProto
+//@   props C07
+//@   safety nil
+//@   requires p != nil && p.request != nil
+//@   ensures version: result == nil ==> verOk(proto) && p.request.Proto == proto && p.request.ProtoMajor == verMajor(proto) && p.request.ProtoMinor == verMinor(proto)   // prop C07
+//@   ensures rejected: (result != nil) == !verOk(proto)   // prop C07
+//@   ensures same: p.request == old(p.request)
+//@   assigns everything
+//@ func (*ServerProcessor).OnTrailerHeader
+//@   props C07
+//@   safety nil
+//@   requires p != nil && p.request != nil
+//@   ensures added: p.request.Trailer != nil && len(p.request.Trailer[canon(key)]) == old(len(p.request.Trailer[canon(key)])) + 1 && p.request.Trailer[canon(key)][old(len(p.request.Trailer[canon(key)]))] == value   // prop C07
+//@   ensures same: p.request == old(p.request) && (old(p.request.Trailer) != nil ==> p.request.Trailer == old(p.request.Trailer))
+//@   assigns everything
+// ---- the client-side processor (C07): status, version, headers, declared length as delivered
+//@ func (*ClientProcessor).OnStatus
+//@   props C07
+//@   safety nil
+//@   requires p != nil && p.response != nil
+//@   ensures stored: p.response.StatusCode == code && p.response.Status == status && p.response == old(p.response)   // prop C07
+//@   assigns p.response.StatusCode, p.response.Status
+//@ func (*ClientProcessor).OnContentLength
+//@   props C07
+//@   safety nil
+//@   requires p != nil && p.response != nil
+//@   ensures stored: p.response.ContentLength == contentLength && p.response == old(p.response)   // prop C07
+//@   assigns p.response.ContentLength
+//@ func (*ClientProcessor).OnHeader
+//@   props C07
+//@   safety nil
+//@   requires p != nil && p.response != nil && p.response.Header != nil
+//@   ensures added: len(p.response.Header[canon(key)]) == old(len(p.response.Header[canon(key)])) + 1 && p.response.Header[canon(key)][old(len(p.response.Header[canon(key)]))] == value   // prop C07
+//@   ensures others: forall k string :: k != canon(key) ==> p.response.Header[k] == old(p.response.Header[k])   // prop C07
+//@   ensures same: p.response == old(p.response) && p.response.Header == old(p.response.Header)
+//@   assigns everything
+//@ func (*ClientProcessor).OnProto
+//@   props C07
+//@   safety nil
+//@   requires p != nil
+//@   ensures version: result == nil ==> verOk(proto) && p.response != nil && p.response.Proto == proto && p.response.ProtoMajor == verMajor(proto) && p.response.ProtoMinor == verMinor(proto) && (old(p.response) == nil ==> p.response.Header != nil) && (old(p.response) != nil ==> p.response == old(p.response))   // prop C07
+//@   ensures rejected: (result != nil) == !verOk(proto)   // prop C07
+//@   assigns everything
+//@   note clientResponsePool's New returns &http.Response{} and releaseClientResponse puts back *http.Response values only
+//@   at call:Get#1 assume pooled: istype(result, "*net/http.Response") && as(result, "*net/http.Response") != nil
+// ---- a completed response is handed to the pending request's callback exactly once, before it is released (C10)
+//@ ghost gCliInv : Int
+//@ fieldfunc nbhttp.ClientProcessor.handler
+//@   params res err
+//@   note ClientConn.onResponse (under contract above) bound to the connection
+//@   ensures gCliInv == old(gCliInv) + 1 && gExec == old(gExec)
+//@   assigns gCliInv, allocates
+//@ func releaseClientResponse
+//@   trusted
+//@   note returns the response object and its body reader to their pools
+//@   assigns allocates
+//@ func (*ClientProcessor).OnComplete$1
+//@   props C10
+//@   safety nil
+//@   requires p != nil && p.handler != nil
+//@   ensures once: gCliInv == old(gCliInv) + 1   // prop C10
+//@   assigns gCliInv, allocates
+//@   at before:handler#1 assert answer: arg_res == res && arg_err == nil   // prop C10
+//@   at before:releaseClientResponse#1 assert after: gCliInv == old(gCliInv) + 1 && arg_res == res   // prop C10
+//@ func (*ClientProcessor).OnComplete
+//@   props C10
+//@   safety nil
+//@   requires p != nil && p.response != nil && p.handler != nil && parser != nil && parser.Execute != nil
+//@   ensures taken: p.response == nil   // prop C10
+//@   ensures inline101: old(p.response.StatusCode) == 101 ==> gCliInv == old(gCliInv) + 1 && gExec == old(gExec)   // prop C10
+//@   ensures queued: old(p.response.StatusCode) != 101 ==> gCliInv == old(gCliInv) && gExec == old(gExec) + 1   // prop C10
+//@   assigns p.response, gCliInv, gExec, allocates
+//@   at before:handler#1 assert answer: arg_res == old(p.response) && arg_err == nil   // prop C10
